@@ -1,4 +1,81 @@
-(** C09 — property theorems (statements + [exact] + [Print Assumptions] only). *)
+(** C09 — property theorems (statements + [exact] + [Print Assumptions] only).
+
+    What is proved about termination and the background worker, on the models:
+    - the background worker never panics: no step of the LSM state machine (flush, compaction,
+      trivial move, ...) from a well-formed state trips one of the code's assertions
+      ([finalize_compaction_inputs] on an empty list, the overlap assertion of
+      [VersionBuilder::maybe_add_file]), and well-formedness is preserved, so this holds along
+      every admissible run;
+    - every loop of the modelled code terminates within its stated fuel: the level-0 restart loop
+      of [get_overlapping_compaction_inputs], [add_boundary_inputs], the skip loops of the
+      two-level iterator, the writer and reader loops of the log;
+    - the log reader and the table iterator never hit an arithmetic-underflow panic on files
+      produced by the writer / builder.
+    Liveness in the sense of wall-clock bounds, OS scheduling fairness and the condition-variable
+    protocol between writers and the worker are NOT proved (see DESIGN.md); they are exercised by
+    the watchdog and pause-point schedules of the check. *)
+From Coq Require Import Lia ZArith.
 From RainVerif Require Import Params.
-From RainVerif.model Require Import Bytes Key.
+From RainVerif.model Require Import Bytes Key Block Table TableSpec Version Lsm LsmSpec DbSpec Log LogScript.
+From RainVerif.proofs Require Import LogProofs.
+From RainVerif.proofs Require TableProofs.
+From RainVerif.proofs Require Import SelectProofs LsmProofs.
 Open Scope N_scope.
+
+(** the worker never panics: one step *)
+Theorem C09_step_no_panic :
+  forall mfs s st, lsm_wf_b s = true -> step_admissible s st ->
+                   l_panic (lsm_step true true mfs s st) = false.
+Proof. exact step_no_panic. Qed.
+Print Assumptions C09_step_no_panic.
+
+(** ... and along every admissible run from the initial state (well-formedness includes
+    [l_panic = false]) *)
+Theorem C09_run_never_panics :
+  forall mfs steps, run_adm mfs lsm_init steps ->
+    lsm_wf_b (fold_left (lsm_step true true mfs) steps lsm_init) = true.
+Proof. exact reachable_wf. Qed.
+Print Assumptions C09_run_never_panics.
+
+(** input selection is total: [finalize_compaction_inputs] never hits its empty-list assertion *)
+Theorem C09_finalize_inputs_no_panic : forall d14 mfs v level seed,
+  seed <> [] -> finalize_inputs true d14 mfs v level seed <> None.
+Proof. exact finalize_inputs_no_panic. Qed.
+Print Assumptions C09_finalize_inputs_no_panic.
+
+(** the level-0 restart loop terminates within [oci_fuel] with the closed answer *)
+Theorem C09_overlapping_inputs_l0_terminates : forall v lo hi,
+  let fs := level_files v O in
+  let res := overlapping_inputs v O lo hi in
+  (exists lo' hi',
+     ole lo' (option_map ik_user lo) /\ oge hi' (option_map ik_user hi)
+     /\ res = filter (in_range lo' hi') fs
+     /\ (forall f, In f res -> inside lo' hi' f))
+  /\ hull_closed fs res.
+Proof. exact overlapping_inputs_l0_closed. Qed.
+Print Assumptions C09_overlapping_inputs_l0_terminates.
+
+(** the two-level iterator never panics or runs out of fuel on a well-formed table, whatever the
+    cursor operations *)
+Theorem C09_table_iterator_total :
+  forall (t : table) (es : list entry),
+    table_wf t es ->
+    length (t_index t) = length (t_blocks t) ->
+    Forall (fun b => b <> []) (t_blocks t) ->
+    forall ops, (In CLast ops -> t_blocks t <> []) ->
+    snd (tl_run t tl_new ops) = true.
+Proof.
+  exact (fun t es H1 H2 H3 ops H4 =>
+           f_equal snd (TableProofs.two_level_refines t es H1 H2 H3 ops H4)).
+Qed.
+Print Assumptions C09_table_iterator_total.
+
+(** the log reader terminates without a panic on every file produced by (possibly interrupted)
+    writer sessions and an optional truncation (second component [false] = no panic) *)
+Theorem C09_log_reader_total :
+  forall ops l, log_script_spec ops = Some l ->
+    snd (log_read_all true (fst (log_script_run ops))) = false.
+Proof.
+  exact (fun ops l H => f_equal snd (log_script_correct_inst ops l H)).
+Qed.
+Print Assumptions C09_log_reader_total.
